@@ -321,3 +321,52 @@ def gen_params(rng, spec):
         if rng.random() < 0.5:
             p["absence"] = sorted(set(p["absence"]))
     return p
+
+
+# ---- bounded-exhaustive scope (thorough tier) -------------------------------------------------------
+
+EXH_WORKS = [0.0, 1.0, 2.0]
+EXH_WORKERS = [  # (number of workers, solo flag of the first, skill of the second)
+    (1, False, None), (1, True, None), (2, False, 1.0), (2, True, 1.0), (2, False, 0.5)]
+
+
+def exh_size(nT):
+    pairs = nT * (nT - 1) // 2
+    return (5 ** pairs) * (len(EXH_WORKS) ** nT) * len(EXH_WORKERS) * 3 * 2
+
+
+def exh_total():
+    return sum(exh_size(n) for n in (1, 2, 3))
+
+
+def exh_spec(index):
+    """the index-th model of the scope: <= 3 tasks, every pair i<j unlinked or linked by one of the four
+    kinds, work in {0,1,2}, one or two workers (solo / half-skilled variants), three task rules"""
+    for nT in (1, 2, 3):
+        if index < exh_size(nT):
+            break
+        index -= exh_size(nT)
+    pairs = [(i, j) for j in range(nT) for i in range(j)]
+    links = []
+    for _ in pairs:
+        links.append(index % 5)
+        index //= 5
+    works = []
+    for _ in range(nT):
+        works.append(EXH_WORKS[index % len(EXH_WORKS)])
+        index //= len(EXH_WORKS)
+    nw, solo, sk2 = EXH_WORKERS[index % len(EXH_WORKERS)]
+    index //= len(EXH_WORKERS)
+    rule = [0, 3, 4][index % 3]
+    index //= 3
+    tasks = [dict(work=works[i], name="T%d" % i, inputs=[]) for i in range(nT)]
+    for (i, j), k in zip(pairs, links):
+        if k:
+            tasks[j]["inputs"].append([i, k - 1])
+    names = ["T%d" % i for i in range(nT)]
+    workers = [dict(skills={n: 1.0 for n in names}, cost=1.0, solo=solo)]
+    if nw == 2:
+        workers.append(dict(skills={n: sk2 for n in names}, cost=2.0, solo=False))
+    spec = dict(tasks=tasks, teams=[dict(workers=workers, targets=list(range(nT)))], components=[], workplaces=[])
+    params = dict(rule=rule, absence=[1] if index % 2 else [], autoFlag=False, maxTime=30)
+    return spec, params
